@@ -38,6 +38,7 @@ def work(item):
     tj, style, seed, timeout_ms, engines = item[:5]
     hist = item[5] if len(item) > 5 else "fresh"
     builder = netcheck.history_builders()[hist]
+    runs.set_default_history(hist)
     topo = T_.Topo.from_json(tj)
     rng = random.Random(seed)
     acc = netcheck.Acc(topo.name if hist == "fresh" else f"{topo.name}[{hist}]")
@@ -94,6 +95,7 @@ def replay(rec):
     if rec["kind"] == "exec":
         print("replay: building and stepping", topo.describe(), "with", rec["encoding"])
         env = numrun.sample_env(topo, random.Random(0))
+        res = None
         if rec["encoding"].startswith("numpy"):
             res, exc = numrun.numpy_float(topo, env, rec["style"])
         else:
@@ -103,6 +105,10 @@ def replay(rec):
             except Exception as e:  # noqa
                 exc = e
         print("exception:", repr(exc))
+        if exc is None and rec["encoding"].startswith("numpy") and res is not None:
+            missing = [f"{k[1]}_{k[0]}" for k, ts in ref_metanet.Ref(topo).next.items() if res.get(k) is None or len(res[k]) != len(ts)]
+            print("next states missing or of wrong size after the step:", missing or "none")
+            return 1 if missing else 0
         return 1 if exc is not None else 0
     key = (rec["target"][0], rec["target"][1])
     i = rec["target"][2]
@@ -140,6 +146,8 @@ def main():
         # the same equations on networks that were read / stepped / had elements replaced before this step
         for h in (hs if args.thorough else [hs[k % 3]]):
             items.append((t.to_json(), styles[(k + 1) % 2], args.seed + k, timeout, ("numpy", "SX"), h))
+        if args.thorough or k % 2 == 0:
+            items.append((t.to_json(), styles[k % 2], args.seed + k, timeout, ("numpy",), "same-names"))
     results = harness.pmap(work, items, args.serial)
     viol, inc, tot, levels, samples, st_, extra_ = netcheck.summarize(results)
     tot["n_queries"] = tot["n_queries"]
